@@ -1,15 +1,53 @@
 """dev tool: markdown table of the stored seeded changes (for DESIGN.md §9.6)"""
 import json, os
+
+DESCR = {
+    "C01-m1": ("TPLExponential.spectral_density gets len_low instead of len_low_rescaled", "len_low>0 and rescale≠1", "C04 superposition obligation added after the miss"),
+    "C01-m2": ("Fourier weights: volume element prod(2π/period) drops the anisotropy ratios", "Fourier generator + anisotropic model", "C01 anisotropic Fourier job added after the miss"),
+    "C03-m1": ("inc_gamma recurrence for negative order with a wrongly hoisted x^s e^-x", "non-integer order < -1 (Integral ν>2, TPL 2H/α>1)", "C03 special-function jobs added after the miss"),
+    "C03-m2": ("Matern.calc_integral_scale: new ν>20 branch with the Gaussian constant (factor 2 off)", "Matern ν in (20,30]", "was hidden by the open finding at the same site; the finding is now pinned (only_if_unsat)"),
+    "C04-m1": ("Hankel transform object built lazily and not invalidated by dim=", "numerical-default model, spectrum evaluated, dim changed, evaluated again", "C04 dim / hankel_kw histories added after the miss"),
+    "C04-m2": ("same change as C01-m1 (found independently)", "TPLExponential, len_low>0, rescale≠1", "C04 superposition obligation"),
+    "C05-m1": ("external-drift rows of every chunk filled from the first chunk", "ExtDrift with ≥2 chunks", "per-chunk right-hand-side obligations + assembly-level replay added after the first (inconclusive) run"),
+    "C05-m2": ("prepared data: normalize(val) − trend − mean instead of normalize(val − trend) − mean", "non-identity normaliser and trend together", "C05 'general' variant added after the miss"),
+    "C06-m1": ("mean subtracted before normalising", "non-identity normaliser and mean≠0", ""),
+    "C06-m2": ("Detrended drops exact=", "Detrended(exact=True) with nugget>0", ""),
+    "C07-m1": ("isometrised conditioning positions recomputed only for new positions", "dim≥2, in-place anis/angles change, set_condition() refresh", "C07 2-D anisotropy histories + state obligations added after the miss"),
+    "C07-m2": ("relative kriging variance clipped to [0,1]", "unbiased kriging far from the data", "C07 scaling job added (the whole-field obligation was undecided); np.clip made fork-free"),
+    "C08-m1": ("direction-separation test hoisted before the directions are normalised", "≥2 directions shorter than 1 with overlapping cones", "obligation 'separation test sees the normalised directions' added after the miss"),
+    "C08-m2": ("masked branch drops the mask (ascontiguousarray instead of filled)", "several masked fields with different masks", "mixed per-field masks added after the miss"),
+    "C09-m1": ("no_data replacement moved after detrending", "finite no_data together with mean/trend/normaliser", "relation no_data+trend added after the miss"),
+    "C09-m2": ("radians conversion skipped for automatically generated bins", "latlon, geo_scale≠1, bin_edges=None", "relation 'automatic bins with a length unit' added after the miss"),
+    "C11-m1": ("per-seed cache of sampled modes, not cleared by the mode_no setter", "seed A → seed B → mode_no → seed A", "there-and-back histories added after the miss"),
+    "C11-m2": ("pre_pos cache keyed on a geometry that ignores angles", "in-place rotation change with unchanged mesh", ""),
+    "C12-m1": ("Givens planes enumerated lexicographically", "dim ≥ 4", ""),
+    "C12-m2": ("universal-kriging drift functions evaluated in isometrised coordinates", "anisotropic / rotated model with a functional drift", "caught by C05 (drift at original coordinates)"),
+    "C13-m1": ("space–time angles zeroed with the wrong slice", "temporal, spatial dim 1–2, user angles", ""),
+    "C13-m2": ("great_circle_to_chordal clips dist/diameter to [0,1]", "great-circle lag > 2·radius", ""),
+    "C14-m1": ("set_dim re-pads angles without the temporal flag", "temporal model, dim change with angles", ""),
+    "C14-m2": ("check_arg_in_bounds compares val_min with a closed upper bound", "list-valued anis, closed finite upper bound, only some ratios above", "C14 bounds_anis operation added after the miss"),
+    "C15-m1": ("summate_incompr point loop turned into prange with a shared scratch vector", "OpenMP build, ≥2 threads", ""),
+    "C15-m2": ("NaN check in the variogram kernels becomes `break` instead of skip", "≥2 fields, NaN in an earlier field only", ""),
+    "C16-m1": ("IncomprRandMeth scales the stored amplitudes in place", "same generator called more than once", ""),
+    "C16-m2": ("unrolled projector uses k_z k_y for the third component (pyx)", "dim 3", ""),
+    "C17-m1": ("Fourier generator shares the caller's model object (no copy)", "in-place anisotropy change", ""),
+    "C17-m2": ("mode grid rebuilt only if ALL axes' spacing changed", "period change that leaves one axis unchanged, dim≥2", ""),
+    "C18-m1": ("YeoJohnson derivative loses the sign-dependent exponent", "negative data, λ≠1", ""),
+    "C18-m2": ("trend removed after normalising", "trend + non-identity normaliser", ""),
+    "C19-m1": ("mean told to the array function ignores `process`", "process=False, keep_mean=False, mean≠0", "C19 wrapper job added after a look at the change's site (the array-level jobs cannot see it)"),
+    "C19-m2": ("'equal' thresholds use the variance as scale of norm.ppf", "thresholds='equal', var≠1, ≥3 values", ""),
+    "C20-m1": ("asarray instead of array before in-place detrending", "check_shape=False path with float input", ""),
+    "C20-m2": ("bin edges converted to radians in place", "latlon, caller's float array", ""),
+}
 rows = []
 for sid in sorted(os.listdir("/verif/seeded")):
     f = f"/verif/seeded/{sid}/meta.json"
     if not os.path.exists(f):
         continue
     m = json.load(open(f))
-    needs = " ".join(m.get("needs", "").split())
-    first = needs.split("Needs")[0][:230]
+    d = DESCR.get(sid, ("", "", ""))
     det = ", ".join(m.get("detected_by", [])) or "—"
     ran = ", ".join(f"{k}:{'V' if v['exit']==1 else ('ok' if v['exit']==0 else 'incl')}" for k, v in m.get("checks", {}).items())
-    rows.append(f"| {sid} | {first} | {det} | {ran} |")
-print("| id | change (from the author's notes) | caught by | checks run (V = violation reported, ok = passed, incl = inconclusive) |\n|---|---|---|---|")
+    rows.append(f"| {sid} | {d[0]} | {d[1]} | {det} | {ran} | {d[2]} |")
+print("| id | change | needs | caught by | checks run (V violation, ok passed, incl inconclusive) | remark |\n|---|---|---|---|---|---|")
 print("\n".join(rows))
